@@ -122,7 +122,7 @@ Decide(r, rq, t) ==
      ELSE
           IF mnc \/ rnc \/ (mr /\ (f.stale \/ own >= 0)) THEN (IF oic THEN "504" ELSE "revalidate")
           ELSE IF ~f.stale THEN "serve"
-          ELSE IF oic THEN "serve"
+          ELSE IF oic THEN (IF rq.ma = 0 /\ "oic_maxage0_served" \notin Defects THEN "504" ELSE "serve")
           ELSE IF inSwr THEN "swr"
           ELSE "revalidate"
 
@@ -517,17 +517,24 @@ SwrServe ==
         /\ ex' = [ex EXCEPT !.pc = "bgorigin"]
   /\ UNCHANGED <<now, idx, ent, ctr>>
 
-BgOrigin(a) ==
+\* the background request under a timeout of swrms milliseconds: an answer that takes at least
+\* that long (or never comes) is cut off by the context deadline; a caller whose context is
+\* already cancelled takes the background request with it as soon as it has to wait
+BgOriginT(a0, swrms) ==
   /\ ex.pc = "bgorigin"
-  /\ LET isResp == a.k \in {"full", "304", "bodyerr"}
+  /\ LET late == a0.k = "hang" \/ a0.lat * 1000 >= swrms \/ (ex.rq.cancel # 0 /\ a0.lat > 0)
+         dur == IF ex.rq.cancel # 0 /\ (a0.lat > 0 \/ a0.k = "hang") THEN 0
+                ELSE IF late THEN (swrms + 999) \div 1000 ELSE a0.lat
+         a == IF late THEN [a0 EXCEPT !.k = "hang"] ELSE a0
+         isResp == a.k \in {"full", "304", "bodyerr"}
          tagn == IF isResp THEN ctr.tag + 1 ELSE ctr.tag
          tokn == IF isResp /\ a.k # "304" THEN ctr.tok + 1 ELSE ctr.tok
          tag == IF isResp THEN "tg" \o ToString(tagn) ELSE ""
          tok == IF isResp /\ a.k # "304" THEN "tk" \o ToString(tokn) ELSE ""
-         rep == IF isResp THEN RepOf(a, now, now) ELSE [st |-> 0, vary |-> <<>>, vs |-> 0, age |-> None, locu |-> -1, locso |-> 0, clocu |-> -1, clocso |-> 0]
+         rep == IF isResp THEN RepOf(a, now, now + dur) ELSE [st |-> 0, vary |-> <<>>, vs |-> 0, age |-> None, locu |-> -1, locso |-> 0, clocu |-> -1, clocso |-> 0]
          s == ex.stored
          e == [ ev |-> "call", x |-> ex.x, c |-> ex.ncalls + 1, bg |-> 1, kind |-> IF a.k = "hang" THEN "cancelled" ELSE a.k,
-                tag |-> tag, tok |-> tok, t0 |-> now, t1 |-> now,
+                tag |-> tag, tok |-> tok, t0 |-> now, t1 |-> now + dur,
                 inm |-> IF s.rep.etag > 0 THEN s.rep.etag ELSE ex.rq.inm,
                 ims |-> IF s.rep.lm >= 0 THEN s.rep.lm ELSE IF ex.rq.ims > 0 THEN Invalid ELSE 0,
                 m |-> ex.rq.m, rng |-> ex.rq.range, oic |-> 0, rep |-> rep, ctxdone |-> IF a.k = "hang" THEN 1 ELSE 0,
@@ -536,10 +543,12 @@ BgOrigin(a) ==
         /\ led' = Emit(e)
         /\ ex' = [ex EXCEPT !.pc = IF a.k \in {"err", "hang"} \/ "bg_shares_response" \in Defects THEN "bghandle" ELSE "bggetent",
                             !.na = ex.na + 1, !.ncalls = ex.ncalls + 1,
-                            !.got = [k |-> a.k, rep |-> rep, tok |-> tok, tag |-> tag, t0 |-> now, t1 |-> now]]
+                            !.got = [k |-> a.k, rep |-> rep, tok |-> tok, tag |-> tag, t0 |-> now, t1 |-> now + dur]]
         \* the background answer belongs to the step that was already logged at the return
-        /\ hist' = [hist EXCEPT ![Len(hist)].ans = Append(hist[Len(hist)].ans, a)]
+        /\ hist' = [hist EXCEPT ![Len(hist)].ans = Append(hist[Len(hist)].ans, a0)]
         /\ UNCHANGED <<now, idx, ent>>
+
+BgOrigin(a) == BgOriginT(a, 5000)
 
 \* the background task reads its own copy of the entry (the served one belongs to the caller)
 BgGetEnt ==
